@@ -184,3 +184,239 @@ func Untag(it *vh.Item) *vh.Item {
 	}
 	return it
 }
+
+// ---------------------------------------------------------------------------
+// containers whose child COUNT crosses the header-width boundaries (23/24,
+// 255/256), in minimal, widened and indefinite form
+
+// Form modes for SetForm
+const (
+	FormMin   = iota
+	FormWide1 // next wider length argument (0x98 nn for nn < 24, 0x99 .. for nn < 256)
+	FormWide8 // 8-byte length argument (0x9b)
+	FormIndef
+	NForms
+)
+
+var FormNames = []string{"min", "wide1", "wide8", "indef"}
+
+// SetForm sets the header form of an array or map.
+func SetForm(it *vh.Item, mode int) {
+	n := uint64(len(it.Xs))
+	if it.K == vh.KMap {
+		n /= 2
+	}
+	switch mode {
+	case FormMin:
+		it.F = vh.MinForm(n)
+	case FormWide1:
+		it.F = vh.MinForm(n) + 1
+	case FormWide8:
+		it.F = vh.F8
+	default:
+		it.F = vh.Findef
+	}
+}
+
+func encLen(it *vh.Item) int { return len(it.Enc()) }
+
+// SmallestTx returns the index of the transaction with the shortest body + witness set.
+func SmallestTx(root *vh.Item) int {
+	best, bi := -1, 0
+	for i := range root.Xs[1].Xs {
+		n := encLen(root.Xs[1].Xs[i]) + encLen(root.Xs[2].Xs[i])
+		if best < 0 || n < best {
+			best, bi = n, i
+		}
+	}
+	return bi
+}
+
+// TxWithAux returns a transaction that has an auxiliary-data entry (or -1).
+func TxWithAux(root *vh.Item) int {
+	m := root.Xs[3]
+	best, bi := -1, -1
+	for k := 0; k+1 < len(m.Xs); k += 2 {
+		if m.Xs[k].K == vh.KUInt && int(m.Xs[k].N) < len(root.Xs[1].Xs) {
+			if n := encLen(m.Xs[k+1]); best < 0 || n < best {
+				best, bi = n, int(m.Xs[k].N)
+			}
+		}
+	}
+	return bi
+}
+
+// Repeat returns n copies of i.
+func Repeat(i, n int) []int {
+	r := make([]int, n)
+	for k := range r {
+		r[k] = i
+	}
+	return r
+}
+
+// WithOutputs replaces the outputs array (key 1) of a Shelley+ body by n
+// copies of its shortest output; returns the new array (nil if none).
+func WithOutputs(body *vh.Item, n int) *vh.Item {
+	for k := 0; k+1 < len(body.Xs); k += 2 {
+		if body.Xs[k].K == vh.KUInt && body.Xs[k].N == 1 && body.Xs[k+1].K == vh.KArr && len(body.Xs[k+1].Xs) > 0 {
+			arr := body.Xs[k+1]
+			small := arr.Xs[0]
+			for _, o := range arr.Xs {
+				if encLen(o) < encLen(small) {
+					small = o
+				}
+			}
+			var xs []*vh.Item
+			for j := 0; j < n; j++ {
+				xs = append(xs, small.Clone())
+			}
+			na := &vh.Item{K: vh.KArr, F: vh.MinForm(uint64(n)), Xs: xs}
+			body.Xs[k+1] = na
+			return na
+		}
+	}
+	return nil
+}
+
+func mapSet(m *vh.Item, key uint64, v *vh.Item) {
+	for k := 0; k+1 < len(m.Xs); k += 2 {
+		if m.Xs[k].K == vh.KUInt && m.Xs[k].N == key {
+			m.Xs[k+1] = v
+			return
+		}
+	}
+	m.Xs = append(m.Xs, vh.U(key), v)
+	if m.F != vh.Findef {
+		m.F = vh.MinForm(uint64(len(m.Xs) / 2))
+	}
+}
+
+// WithWitnessComponents gives an Alonzo+ witness set n datums (key 4), n
+// redeemers (key 5; map form if redeemerMap) and n native scripts (key 1),
+// all distinct and tiny; returns the three containers.
+func WithWitnessComponents(w *vh.Item, n int, redeemerMap bool) (datums, redeemers, scripts *vh.Item) {
+	datums = &vh.Item{K: vh.KArr, F: vh.MinForm(uint64(n))}
+	scripts = &vh.Item{K: vh.KArr, F: vh.MinForm(uint64(n))}
+	if redeemerMap {
+		redeemers = &vh.Item{K: vh.KMap, F: vh.MinForm(uint64(n))}
+	} else {
+		redeemers = &vh.Item{K: vh.KArr, F: vh.MinForm(uint64(n))}
+	}
+	for i := 0; i < n; i++ {
+		datums.Xs = append(datums.Xs, vh.U(uint64(1000+i)))
+		kh := make([]byte, 28)
+		kh[0], kh[1] = byte(i), byte(i>>8)
+		scripts.Xs = append(scripts.Xs, vh.A(vh.U(0), vh.B(kh)))
+		ex := vh.A(vh.U(1), vh.U(2))
+		if redeemerMap {
+			redeemers.Xs = append(redeemers.Xs, vh.A(vh.U(0), vh.U(uint64(i))), vh.A(vh.U(uint64(i)), ex))
+		} else {
+			redeemers.Xs = append(redeemers.Xs, vh.A(vh.U(0), vh.U(uint64(i)), vh.U(uint64(i)), ex))
+		}
+	}
+	mapSet(w, 4, datums)
+	mapSet(w, 5, redeemers)
+	mapSet(w, 1, scripts)
+	return
+}
+
+// ByronWithTxs returns a Byron main block whose tx payload holds n copies of
+// its first transaction, whose outputs array holds m copies of its first output.
+func ByronWithTxs(root *vh.Item, n, m int) (b, payload *vh.Item, outs []*vh.Item) {
+	b = root.Clone()
+	payload = b.Xs[1].Xs[0]
+	if len(payload.Xs) == 0 {
+		return b, payload, nil
+	}
+	pair := payload.Xs[0]
+	if m > 0 && pair.K == vh.KArr && len(pair.Xs) >= 2 && len(pair.Xs[0].Xs) >= 2 && len(pair.Xs[0].Xs[1].Xs) > 0 {
+		oa := pair.Xs[0].Xs[1]
+		o := oa.Xs[0]
+		oa.Xs = nil
+		for j := 0; j < m; j++ {
+			oa.Xs = append(oa.Xs, o.Clone())
+		}
+		if oa.F != vh.Findef {
+			oa.F = vh.MinForm(uint64(m))
+		}
+	}
+	var xs []*vh.Item
+	for j := 0; j < n; j++ {
+		c := pair.Clone()
+		xs = append(xs, c)
+		outs = append(outs, c.Xs[0].Xs[1])
+	}
+	payload.Xs = xs
+	if payload.F != vh.Findef {
+		payload.F = vh.MinForm(uint64(n))
+	}
+	return
+}
+
+// BoundaryCounts are the child counts around the header-width boundaries.
+var BoundaryCounts = []int{23, 24, 25, 30, 255, 256, 257}
+
+// Boundary describes one generated block with a boundary-count container.
+type Boundary struct {
+	Label string
+	Type  uint
+	Root  *vh.Item
+	Small bool // cheap enough for an in-Coq case
+}
+
+// BoundaryBlocks builds, for a Shelley..Conway fixture, blocks in which one
+// walked container has `count` children in header form `mode`: level 0 =
+// tx bodies + witness sets arrays (+ aux map if the fixture has aux data),
+// 1 = outputs array, 2 = datums / redeemers / scripts (Alonzo+).
+func BoundaryBlocks(f Fixture, level, count, mode int) []Boundary {
+	if !IsShelleyLike(f.Root) {
+		return nil
+	}
+	name := func(what string) string {
+		return f.Name + ":boundary:" + what + ":" + itoa(count) + ":" + FormNames[mode]
+	}
+	var out []Boundary
+	switch level {
+	case 0:
+		b := Subset(f.Root, Repeat(SmallestTx(f.Root), count))
+		SetForm(b.Xs[1], mode)
+		SetForm(b.Xs[2], mode)
+		out = append(out, Boundary{name("txs"), f.Type, b, count <= 30})
+		if i := TxWithAux(f.Root); i >= 0 {
+			b2 := Subset(f.Root, Repeat(i, count))
+			SetForm(b2.Xs[3], mode)
+			SetForm(b2.Xs[1], (mode+1)%NForms)
+			out = append(out, Boundary{name("aux"), f.Type, b2, count <= 25 && encLen(b2) < 16000})
+		}
+	case 1:
+		b := Subset(f.Root, []int{SmallestTx(f.Root)})
+		if arr := WithOutputs(b.Xs[1].Xs[0], count); arr != nil {
+			SetForm(arr, mode)
+			out = append(out, Boundary{name("outputs"), f.Type, b, count <= 30})
+		}
+	case 2:
+		if f.Type < 5 {
+			return nil
+		}
+		b := Subset(f.Root, []int{SmallestTx(f.Root)})
+		d, r, s := WithWitnessComponents(b.Xs[2].Xs[0], count, f.Type >= 7 && mode%2 == 1)
+		SetForm(d, mode)
+		SetForm(r, mode)
+		SetForm(s, mode)
+		out = append(out, Boundary{name("witness-components"), f.Type, b, count <= 30})
+	}
+	return out
+}
+
+func itoa(n int) string {
+	if n == 0 {
+		return "0"
+	}
+	s := ""
+	for n > 0 {
+		s = string(rune('0'+n%10)) + s
+		n /= 10
+	}
+	return s
+}
